@@ -125,6 +125,7 @@ type FuncContract struct {
 	Witness  []string
 	Trusted  string
 	NoOverflow string
+	MapRange   bool   // `maprange`: range over maps in this function is modelled as iteration over arbitrary entries (default: outside the subset)
 	NoFrame    string // `noframe REASON`: frame obligations are not generated for this function (safety-only contract; listed as assumption)
 	Wraparound string
 	Fuel     int // unfolding depth for recursive spec functions in this block's obligations (default 2; hypotheses get one less)
@@ -183,7 +184,7 @@ type ContractFile struct {
 var clauseKeywords = map[string]bool{
 	"requires": true, "ensures": true, "modifies": true, "pure": true, "observer": true, "loop": true,
 	"inline": true, "fresh": true, "appends": true, "uses": true, "induct": true, "decreases": true, "witness": true, "trusted": true,
-	"trigger": true, "instance": true, "nooverflow": true, "noframe": true, "assert": true, "wraparound": true, "effect": true, "callback": true, "fuel": true, "reveal": true,
+	"trigger": true, "instance": true, "nooverflow": true, "noframe": true, "maprange": true, "assert": true, "wraparound": true, "effect": true, "callback": true, "fuel": true, "reveal": true,
 }
 
 // ScanContractFile extracts the //@ blocks of a Go source file.
@@ -531,6 +532,8 @@ func (cf *ContractFile) addClause(fc *FuncContract, text string, line int) error
 			rest = "no reason given"
 		}
 		fc.NoOverflow = rest
+	case "maprange":
+		fc.MapRange = true
 	case "noframe":
 		if rest == "" {
 			rest = "no reason given"
